@@ -354,8 +354,8 @@ def mutators():
 
 
 QUICK_MC = [("BcastDKGMC_equiv_quick.cfg", 600), ("BcastDKGMC_replay_quick.cfg", 600)]
-THOROUGH_MC = [("BcastDKGMC_equiv.cfg", 900), ("BcastDKGMC_full3.cfg", 900), ("BcastDKGMC_full4.cfg", 900),
-               ("BcastDKGMC_replay.cfg", 900)]
+THOROUGH_MC = [("BcastDKGMC_equiv.cfg", 900), ("BcastDKGMC_equiv2.cfg", 900), ("BcastDKGMC_full3.cfg", 900),
+               ("BcastDKGMC_full4.cfg", 900), ("BcastDKGMC_replay.cfg", 900)]
 CONTROLS = [("BcastDKGMC_ctl_nodedup.cfg", "AgreementAccepted", "server.dedup removed"),
             ("BcastDKGMC_ctl_nosession.cfg", "AllSigned", "session hash not bound by newHashAny"),
             ("BcastDKGMC_ctl_noid.cfg", "AllSigned", "message id not bound by newHashAny"),
